@@ -42,6 +42,9 @@ pub const RULE_POOL: &[&str] = &[
     "\"convert_square_root_call\"",
     "{\"rule\":\"inject_global_value\",\"identifier\":\"DEBUG\",\"value\":true}",
     "{\"rule\":\"inject_global_value\",\"identifier\":\"DEBUG\",\"value\":\"text\"}",
+    "{\"rule\":\"inject_global_value\",\"identifier\":\"VERSION\",\"value\":{\"major\":1,\"tags\":[\"a\",\"b\"],\"nested\":{\"x\":1.5,\"y\":null}}}",
+    "{\"rule\":\"rename_variables\",\"include_functions\":true,\"globals\":[\"$default\",\"$roblox\"]}",
+    "{\"rule\":\"remove_comments\",\"except\":[\"^--!\",\"TODO\"]}",
     "{\"rule\":\"append_text_comment\",\"text\":\"generated file\"}",
     "{\"rule\":\"append_text_comment\",\"text\":\"two\\nlines\",\"location\":\"end\"}",
     "\"make_assignment_local\"",
@@ -67,12 +70,28 @@ pub struct ConfigParts {
     pub bundle_excludes: Vec<String>,
     pub apply_to_files: Vec<String>,
     pub skip_files: Vec<String>,
+    /// Some(path relative to the configuration file): `convert_require` from path requires
+    /// to Roblox instance paths through this Rojo sourcemap is the first rule
+    pub convert_sourcemap: Option<String>,
+    /// indexing style of the Roblox target of `convert_require` (None = default)
+    pub convert_indexing: Option<String>,
 }
 
 impl ConfigParts {
     pub fn to_text(&self) -> String {
         let mut fields: Vec<String> = Vec::new();
-        if let Some(rules) = &self.rules {
+        if let Some(sourcemap) = &self.convert_sourcemap {
+            let indexing = match &self.convert_indexing {
+                Some(style) => format!(",\"indexing_style\":\"{}\"", style),
+                None => String::new(),
+            };
+            let mut rules = vec![format!(
+                "{{\"rule\":\"convert_require\",\"current\":\"path\",\"target\":{{\"name\":\"roblox\",\"rojo_sourcemap\":\"{}\"{}}}}}",
+                sourcemap, indexing
+            )];
+            rules.extend(self.rules.clone().unwrap_or_default());
+            fields.push(format!("\"rules\":[{}]", rules.join(",")));
+        } else if let Some(rules) = &self.rules {
             fields.push(format!("\"rules\":[{}]", rules.join(",")));
         }
         if let Some(generator) = &self.generator {
@@ -139,7 +158,57 @@ pub fn gen_config_parts(rng: &mut Rng, bundle: Option<&str>) -> ConfigParts {
         bundle_excludes: Vec::new(),
         apply_to_files: Vec::new(),
         skip_files: Vec::new(),
+        convert_sourcemap: None,
+        convert_indexing: None,
     }
+}
+
+/// A Rojo sourcemap listing every given Lua file as a ModuleScript in a tree of Folders;
+/// file paths are written relative to the sourcemap's own directory.
+pub fn render_sourcemap(paths: &[String], sourcemap_path: &str, root_name: &str) -> String {
+    #[derive(Default)]
+    struct Dir {
+        dirs: std::collections::BTreeMap<String, Dir>,
+        files: Vec<(String, String)>,
+    }
+    let mut root = Dir::default();
+    let ups = parent(sourcemap_path).split('/').filter(|c| !c.is_empty()).count();
+    let prefix = "../".repeat(ups);
+    for path in paths {
+        let mut dir = &mut root;
+        let parts: Vec<&str> = path.split('/').collect();
+        for part in &parts[..parts.len() - 1] {
+            dir = dir.dirs.entry((*part).to_owned()).or_default();
+        }
+        let name = parts[parts.len() - 1];
+        let stem = match name.rfind('.') {
+            Some(i) if i > 0 => &name[..i],
+            _ => name,
+        };
+        dir.files.push((stem.to_owned(), format!("{}{}", prefix, path)));
+    }
+    fn quote(s: &str) -> String {
+        serde_json::to_string(s).unwrap_or_default()
+    }
+    fn render(name: &str, dir: &Dir) -> String {
+        let mut children: Vec<String> = Vec::new();
+        for (n, d) in &dir.dirs {
+            children.push(render(n, d));
+        }
+        for (stem, file) in &dir.files {
+            children.push(format!(
+                "{{\"name\":{},\"className\":\"ModuleScript\",\"filePaths\":[{}]}}",
+                quote(stem),
+                quote(file)
+            ));
+        }
+        format!(
+            "{{\"name\":{},\"className\":\"Folder\",\"children\":[{}]}}",
+            quote(name),
+            children.join(",")
+        )
+    }
+    render(root_name, &root)
 }
 
 pub const INPUT_DIRS: &[&str] = &["src", "in", "proj/src", "my src", "a.b"];
@@ -269,6 +338,8 @@ pub struct Project {
     pub other: Vec<FsEntry>,
     pub bundle: Option<String>,
     pub aliases: Vec<AliasDef>,
+    /// requires are converted to Roblox instance paths through a sourcemap (no bundling)
+    pub convert: bool,
 }
 
 impl Project {
@@ -379,8 +450,9 @@ pub fn gen_project(rng: &mut Rng, knobs: &ProjectKnobs) -> Project {
         None
     };
     let luau = bundle.as_deref() == Some("luau");
+    let convert = bundle.is_none() && knobs.allow_bundle && !input_is_file && rng.chance(1, 6);
     let mut data: Vec<(String, String)> = Vec::new();
-    if bundle.is_some() {
+    if bundle.is_some() || convert {
         // acyclic requires: i may require j > i
         let count = sources.len();
         for i in 0..count {
@@ -392,7 +464,7 @@ pub fn gen_project(rng: &mut Rng, knobs: &ProjectKnobs) -> Project {
             }
         }
         // data files
-        if rng.chance(1, 2) {
+        if bundle.is_some() && rng.chance(1, 2) {
             let kinds: [(&str, &[&str]); 4] = [
                 ("json", corpus::DATA_JSON),
                 ("yaml", corpus::DATA_YAML),
@@ -546,6 +618,7 @@ pub fn gen_project(rng: &mut Rng, knobs: &ProjectKnobs) -> Project {
         other,
         bundle,
         aliases,
+        convert,
     }
 }
 
@@ -641,7 +714,7 @@ pub fn gen_invocation(
     backend: Backend,
 ) -> Invocation {
     let mut extra: Vec<FsEntry> = Vec::new();
-    let config = match rng.below(if allow_object { 4 } else { 3 }) {
+    let config = match rng.below(if allow_object && !project.convert { 4 } else { 3 }) {
         0 => {
             let name = if rng.chance(1, 2) {
                 ".darklua.json"
@@ -751,3 +824,73 @@ pub fn gen_invocation(
         extra_entries: extra,
     }
 }
+
+// ------------------------------------------------------------------ top-level file filters
+
+fn segment_match(pattern: &[char], text: &[char]) -> bool {
+    match pattern.first() {
+        None => text.is_empty(),
+        Some('*') => (0..=text.len()).any(|i| segment_match(&pattern[1..], &text[i..])),
+        Some(c) => text.first() == Some(c) && segment_match(&pattern[1..], &text[1..]),
+    }
+}
+
+fn segments_match(pattern: &[&str], path: &[&str]) -> bool {
+    match pattern.first() {
+        None => path.is_empty(),
+        Some(&"**") => (0..=path.len()).any(|i| segments_match(&pattern[1..], &path[i..])),
+        Some(p) => match path.first() {
+            Some(t) => {
+                let pc: Vec<char> = p.chars().collect();
+                let tc: Vec<char> = t.chars().collect();
+                segment_match(&pc, &tc) && segments_match(&pattern[1..], &path[1..])
+            }
+            None => false,
+        },
+    }
+}
+
+/// The harness's own evaluation of the glob subset it generates: `**` (any number of
+/// path segments), `*` (any characters inside one segment) and literals.
+pub fn glob_match(pattern: &str, path: &str) -> bool {
+    let pattern: Vec<&str> = pattern.split('/').filter(|s| !s.is_empty()).collect();
+    let path: Vec<&str> = path.split('/').filter(|s| !s.is_empty()).collect();
+    segments_match(&pattern, &path)
+}
+
+/// Is `path` selected by the top-level `apply_to_files` / `skip_files` of this
+/// configuration text (documented semantics: at least one apply pattern or none given,
+/// and no skip pattern)?
+pub fn config_selects(config_text: &str, path: &str) -> bool {
+    let value: serde_json::Value = match serde_json::from_str(config_text) {
+        Ok(v) => v,
+        Err(_) => return true,
+    };
+    let list = |key: &str| -> Vec<String> {
+        match value.get(key) {
+            Some(serde_json::Value::String(s)) => vec![s.clone()],
+            Some(serde_json::Value::Array(a)) => a
+                .iter()
+                .filter_map(|v| v.as_str().map(str::to_owned))
+                .collect(),
+            _ => Vec::new(),
+        }
+    };
+    let apply = list("apply_to_files");
+    let skip = list("skip_files");
+    if !apply.is_empty() && !apply.iter().any(|p| glob_match(p, path)) {
+        return false;
+    }
+    !skip.iter().any(|p| glob_match(p, path))
+}
+
+pub const FILTER_PATTERNS: &[&str] = &[
+    "**/*.lua",
+    "**/*.luau",
+    "**/sub/**",
+    "**/a.*",
+    "**/init.*",
+    "**/*e*",
+    "**/other dir/*",
+    "**/m*",
+];
